@@ -57,6 +57,8 @@ ASSUMPTIONS = [
 KNOWN_BRACE = 'C05-brace-override-keeps-old'
 DRIVER_SUB = 'init'
 KNOWN_FLEX = 'C05-flex-reinit'      # region InitSpec.FlexReinit; reported as a known finding once known_findings.json lists it
+KNOWN_BRACED = 'C05-braced-string-literal'   # 6.7.9p14/p15: a string literal for a character array may be enclosed in braces
+BRACED_STR_SHARE = 0.0 if os.environ.get('C05_NO_BRACED_STR') else 0.06     # share of braced_str_case() in case(); the env var is a debugging aid
 
 
 def known_listed(fid):
@@ -513,6 +515,21 @@ class Gen:
         if elem.size == 4: return elem.cname in ('int', 'unsigned')
         return False
 
+    def braced_str(self, elem, n, notes, comma=None):
+        """6.7.9p14/p15: `{ string-literal }` / `{ string-literal , }` for an array of n elements (None: unknown bound) of the
+        character type elem (the literal has the element width of the array: str_elem_ok); tagged `braced_str`"""
+        ex = self.string_for(elem, n)
+        notes.add('braced_str')
+        self.features.add('braced-string')
+        toks = ['{', ex]
+        if (self.rng.random() < 0.35) if comma is None else comma:
+            toks.append(',')
+            self.features.add('braced-string-trailing-comma')
+        return toks + ['}']
+
+    def brace_strings(self):
+        return BRACED_STR_SHARE > 0
+
     # ------------------------------------------------------------------ initializer spellings
     def leaf_info(self, root, path):
         """(scalar type, bit width) of the leaf at path"""
@@ -527,8 +544,11 @@ class Gen:
         return t, bw
 
     def plain(self, root, top, path, notes, allow_string=True):
-        """an initializer without braces for the subobject at path: descend (p20); returns (token, leaf path)"""
+        """an initializer without braces for the subobject at path: descend (p20); returns (token, leaf path).
+        When the subobject at path ITSELF (no descent: a `{` opens the current subobject) is a character array, the string literal
+        may come enclosed in braces (6.7.9p14): then the first component is the token list `{ str [,] }`"""
         rng = self.rng
+        path0 = path
         while True:
             t = self.sub(root, path)
             if isinstance(t, Sc):
@@ -539,6 +559,8 @@ class Gen:
                 return ex, path
             if allow_string and isinstance(t, Arr) and self.str_elem_ok(t.elem) and rng.random() < 0.6 and (t.n is None or t.n > 0 or self.growable(root, top, path)):
                 n = None if self.growable(root, top, path) else t.n
+                if path is path0 and self.brace_strings() and rng.random() < 0.25:
+                    return self.braced_str(t.elem, n, notes), path
                 return self.string_for(t.elem, n), path
             k = self.first_sub(root, top, path)
             if k is None:
@@ -608,6 +630,9 @@ class Gen:
             toks.append(ex)
             if rng.random() < 0.2: toks.append(',')
             return toks + ['}']
+        if (isinstance(t, Arr) and self.str_elem_ok(t.elem) and (t.n is None or t.n > 0) and self.brace_strings()
+                and rng.random() < 0.2):
+            return self.braced_str(t.elem, t.n, notes)
         cur = [self.first_sub(t, top, [])] if self.first_sub(t, top, []) is not None else None
         nleaves = self.count_leaves(t)
         target = rng.choice([0, 1, 2, nleaves // 2, nleaves, nleaves, nleaves + 1]) if rng.random() < 0.5 else rng.randint(0, min(nleaves + 1, 9))
@@ -699,12 +724,17 @@ class Gen:
                 ex, leaf = self.plain(t, top, paths[0], notes, allow_string=bool(desg) or not after_desg)
                 if ex is None:
                     break
-                item.append(ex)
+                if isinstance(ex, list):          # `{ string-literal }` for the character array at paths[0]
+                    item += ex
+                    if any(self.touched_prefix(seen_paths, p) for p in paths):
+                        notes.add('maybe-override')
+                else:
+                    item.append(ex)
                 last = paths[-1] + leaf[len(paths[0]):]
                 if flex_member is not None and leaf[:1] == [flex_member]:
                     flex_used = True
                     if flex_state is None:
-                        flex_state = 'closed' if (ex.as_string and leaf == [flex_member]) else 'elided'
+                        flex_state = 'closed' if ((isinstance(ex, list) or ex.as_string) and leaf == [flex_member]) else 'elided'
             if items: toks.append(',')
             toks += item
             seen_paths += paths
@@ -855,12 +885,167 @@ class Gen:
         toks = self.braced(t, True, 4, notes)
         return {'ty': t, 'toks': toks, 'features': sorted(self.features), 'notes': sorted(notes)}
 
+    # ------------------------------------------------------------------ braced string literals (6.7.9p14/p15)
+    STR_ELEMS = ['char', 'char', 'char', 'signed char', 'unsigned char', 'unsigned short', 'int', 'unsigned']
+
+    def braced_str_case(self):
+        """`{ string-literal }` / `{ string-literal , }` initialising an array of character type of the literal's element width
+        (char/signed char/unsigned char with "..."/u8"...", unsigned short with u"...", int with L"...", unsigned with U"..."):
+        the whole object, an array of unknown bound, a member of a struct/union, an element of an array of arrays, after a
+        designator, and overriding an earlier initializer of the same array (6.7.9p19; the specification flags that as `over`
+        exactly as it does for a string without braces).  Lengths as string_for picks them: shorter, exact with and without
+        terminator, empty."""
+        rng = self.rng
+        self.features = set(['braced-string-family'])
+        notes = set()
+        elem = BYNAME[rng.choice(self.STR_ELEMS)]
+        n = rng.choice([1, 2, 3, 4, 4, 6])
+        carr = Arr(elem, n)
+        other = lambda: rng.choice([BYNAME['int'], BYNAME['char'], BYNAME['long'], BYNAME['short'], BYNAME['double'], BYNAME['unsigned char']])
+        bs = lambda nn=n, e=elem: self.braced_str(e, nn, notes)
+        lit = lambda nn=n, e=elem: [self.string_for(e, nn)]
+        def join(items):
+            toks = ['{']
+            for i, it in enumerate(items):
+                if i: toks.append(',')
+                toks += it
+            if items and rng.random() < 0.25:
+                toks.append(','); self.features.add('trailing-comma')
+            return toks + ['}']
+        kind = rng.choice(['top', 'top', 'unknown', 'unknown', 'member', 'member', 'rows', 'rows', 'rows-unknown', 'desg-member',
+                           'desg-index', 'override-member', 'override-index', 'override-top-level-list', 'union', 'nested', 'flex'])
+        self.features.add('braced-string:' + kind)
+        if kind == 'top':
+            t, toks = carr, bs()
+        elif kind == 'unknown':
+            self.features.add('unknown-bound')
+            t, toks = Arr(elem, None), bs(None)
+        elif kind == 'member':
+            ms = [Mem('a', other()), Mem('s', carr), Mem('z', other())]
+            k = rng.choice([0, 1, 2])
+            ms = ms[:1] * (k > 0) + [ms[1]] + ms[2:] * (k < 2) if rng.random() < 0.5 else ms
+            t = Agg(False, ms)
+            items = []
+            for m in t.members:
+                if m.name == 's':
+                    items.append(bs())
+                else:
+                    if rng.random() < 0.15:
+                        self.features.add('short-list'); break
+                    items.append([self.value_for(m.ty, None, False)])
+            toks = join(items)
+        elif kind in ('rows', 'rows-unknown'):
+            rows = rng.choice([2, 2, 3])
+            t = Arr(carr, None if kind == 'rows-unknown' else rows)
+            if t.n is None: self.features.add('unknown-bound')
+            written = rng.randint(1, rows)
+            items = []
+            for i in range(written):
+                r = rng.random()
+                # (a positional string literal without braces directly after braces is fine; gcc's quirk needs a designator)
+                items.append(bs() if r < 0.7 or i == 0 else lit() if r < 0.85 else self.braced(carr, False, 1, notes))
+            if written < rows: self.features.add('short-list')
+            toks = join(items)
+        elif kind == 'desg-member':
+            t = Agg(False, [Mem('a', other()), Mem('s', carr), Mem('z', other()), Mem('w', Arr(elem, rng.choice([2, 3, 5])))])
+            self.features.add('designator')
+            order = rng.choice([['s'], ['w', 's'], ['z', 's'], ['s', 'a'], ['w', 's', 'z']])
+            if order != sorted(order, key='aszw'.index): self.features.add('out-of-order-designator')
+            items = []
+            for nm in order:
+                m = next(x for x in t.members if x.name == nm)
+                if isinstance(m.ty, Arr):
+                    items.append([('.', nm), '='] + bs(m.ty.n))
+                else:
+                    items.append([('.', nm), '=', self.value_for(m.ty, None, False)])
+            if order[-1] == 's' and rng.random() < 0.5:
+                items.append([self.value_for(t.members[2].ty, None, False)])      # the cursor continues after the array: .z
+            toks = join(items)
+        elif kind == 'desg-index':
+            rows = rng.choice([2, 3, 4])
+            unknown = rng.random() < 0.3
+            t = Arr(carr, None if unknown else rows)
+            if unknown: self.features.add('unknown-bound')
+            self.features.add('designator')
+            idx = rng.sample(range(rows), rng.randint(1, min(rows, 3)))
+            if idx != sorted(idx): self.features.add('out-of-order-designator')
+            items = [[('[', i)] + ['='] + bs() for i in idx]
+            if rng.random() < 0.4 and (unknown or idx[-1] + 1 < rows):
+                items.append(bs())                                                   # positional: the row after the designated one
+            toks = join(items)
+        elif kind == 'override-member':
+            t = Agg(False, [Mem('a', other()), Mem('s', carr), Mem('z', other())])
+            self.features.add('designator')
+            notes.add('maybe-override')
+            first = rng.choice(['pos-lit', 'pos-braced', 'desg-lit', 'desg-braced', 'desg-list', 'desg-elem'])
+            items = []
+            if first.startswith('pos'):
+                items.append([self.value_for(t.members[0].ty, None, False)])
+                items.append(lit() if first == 'pos-lit' else bs())
+            elif first == 'desg-list':
+                items.append([('.', 's'), '=', '{'] + sum([[self.int_const(elem), ','] for _ in range(rng.randint(1, n))], []) + ['}'])
+            elif first == 'desg-elem':
+                items.append([('.', 's'), ('[', rng.randint(0, n - 1)), '=', self.int_const(elem)])
+            else:
+                items.append([('.', 's'), '='] + (lit() if first == 'desg-lit' else bs()))
+            items.append([('.', 's'), '='] + bs())
+            if rng.random() < 0.4:
+                items.append([self.value_for(t.members[2].ty, None, False)])
+            toks = join(items)
+        elif kind == 'override-index':
+            rows = rng.choice([2, 3])
+            t = Arr(carr, rows)
+            self.features.add('designator')
+            notes.add('maybe-override')
+            i = rng.randint(0, rows - 1)
+            items = [bs() if rng.random() < 0.5 else lit() for _ in range(i + 1)]   # rows 0..i positionally
+            items.append([('[', i), '='] + bs())
+            toks = join(items)
+        elif kind == 'override-top-level-list':
+            # the array is the declared object; an element designator first, then nothing else can name the whole array: instead
+            # the array sits in a one-member struct / one-row array and is overridden there
+            t = Arr(carr, 1)
+            self.features.add('designator')
+            notes.add('maybe-override')
+            items = [[('[', 0), ('[', rng.randint(0, n - 1)), '=', self.int_const(elem)], [('[', 0), '='] + bs()]
+            toks = join(items)
+        elif kind == 'union':
+            ms = [Mem('s', carr), Mem('n', other())]
+            if rng.random() < 0.5: ms.reverse()
+            t = Agg(True, ms)
+            if ms[0].name == 's' and rng.random() < 0.5:
+                toks = join([bs()])
+            else:
+                self.features.update(['designator', 'union-designator'])
+                toks = join([[('.', 's'), '='] + bs()])
+        elif kind == 'nested':
+            inner = Agg(False, [Mem('s', carr), Mem('b', other())])
+            t = Agg(False, [Mem('k', other()), Mem('v', Arr(inner, 2)), Mem('z', other())])
+            r = rng.random()
+            if r < 0.5:
+                toks = join([[self.value_for(t.members[0].ty, None, False)],
+                             join([join([bs(), [self.value_for(inner.members[1].ty, None, False)]]), join([bs()])])])
+            else:
+                self.features.update(['designator', 'nested-designator'])
+                j = rng.randint(0, 1)
+                toks = join([[('.', 'v'), ('[', j), ('.', 's'), '='] + bs(), [self.value_for(inner.members[1].ty, None, False)]])
+        else:
+            # flexible array member of character type (GNU static initialization; gcc -std=gnu11 is the judge): first and only initializer
+            self.features.add('flexible-member')
+            t = Agg(False, [Mem('a', other()), Mem('f', Arr(elem, 0))], flex=True)
+            toks = join([[self.value_for(t.members[0].ty, None, False)], bs(None)]) if rng.random() < 0.6 else \
+                join([[('.', 'f'), '='] + bs(None)])
+            if isinstance(toks[1], tuple): self.features.add('designator')
+        return {'ty': t, 'toks': toks, 'features': sorted(self.features), 'notes': sorted(notes)}
+
     def case(self):
         r0 = self.rng.random()
         if r0 < 0.07:
             return self.range_case()
         if r0 < 0.12:
             return self.reloc_case()
+        if r0 < 0.12 + BRACED_STR_SHARE:
+            return self.braced_str_case()
         self.features = set()
         notes = set()
         t = self.top_type()
@@ -1166,8 +1351,13 @@ class Runner:
             corr.count('feature:' + f)
         for f in c['notes']:
             corr.count('note:' + f)
+        bstr = 'braced_str' in c['notes']       # contains `{ string-literal [,] }` for a character array of the literal's width
+        if bstr:
+            corr.count('braced_str')
         key = hashlib.sha1(c['line'].encode()).hexdigest()
         if any(isinstance(x, tuple) for x in c['toks']) or 'brace-elision' in c['features'] or 'string-no-terminator' in c['features']:
+            corr.nontrivial.add(key)
+        if bstr:
             corr.nontrivial.add(key)
         inp = {'decl': c['ctext'], 'types': c['cdefs'], 'driver_line': c['line']}
         strings = {x.strid: x.strbytes for x in c['toks'] if isinstance(x, Ex) and x.strbytes is not None}
@@ -1211,6 +1401,9 @@ class Runner:
             else:
                 corr.count('outside-theorem:region')
         # ---- rejected by a compiler
+        if bstr and (k in grej or k in crej):
+            corr.count('braced_str:' + ('gcc_rejects' if k in grej else 'chibicc_rejects'))
+            corr.sample({'braced_str_rejected': c['ctext'], 'types': c['cdefs'], 'gcc': str(grej.get(k)), 'chibicc': str(crej.get(k))}, limit=8)
         if k in grej:
             corr.count('gcc_rejects')
             if k not in crej and parse_ok:
@@ -1261,9 +1454,13 @@ class Runner:
             for kind in ('s', 'a'):
                 got = cd.get((k, 'sizeof_' + kind))
                 if got is not None and got != gsz:
-                    corr.violations.append({'what': 'sizeof the initialised object differs from gcc (array of unknown bound: largest index + 1)',
-                                            'input': inp, 'expected': gsz, 'got': got,
-                                            'replay_case': {'line': c['line'], 'ctext': c['ctext'], 'cdefs': c['cdefs']}})
+                    v = {'what': 'sizeof the initialised object differs from gcc (array of unknown bound: largest index + 1)',
+                         'input': inp, 'expected': gsz, 'got': got,
+                         'replay_case': {'line': c['line'], 'ctext': c['ctext'], 'cdefs': c['cdefs']}}
+                    if bstr:
+                        self.braced_divergence(v, c)
+                    else:
+                        corr.violations.append(v)
                     break
         mask = list(bytes.fromhex(m.get('cover', ''))) if m.get('cover') else [255] * len(cs)
         if len(mask) != len(cs):
@@ -1277,7 +1474,10 @@ class Runner:
             if d is not None:
                 v = {'what': 'static and automatic object differ', 'input': inp, 'expected': 'static ' + show_cells(cs),
                      'got': 'automatic ' + show_cells(ca), 'first_difference_at_byte': d}
-                self.violation(v, c, known)
+                if bstr and not known:
+                    self.braced_divergence(v, c)
+                else:
+                    self.violation(v, c, known)
         # ---- model <-> code (all bytes)
         ms = model_cells(m.get('static', '')) if not m.get('static', 'fail').startswith('fail') else None
         ma = model_cells(m.get('auto', '')) if not m.get('auto', 'fail').startswith('fail') else None
@@ -1287,9 +1487,10 @@ class Runner:
         gs0 = symbolize(*gd[(k, 's')], strings) if (gd and k not in grej and (k, 's') in gd) else None
         odiff = {'gcc': show_cells(gs0), 'oracle_differs': masked_equal(cs, gs0, mask) is not None,
                  'replay_case': {'line': c['line'], 'ctext': c['ctext'], 'cdefs': c['cdefs']}} if gs0 is not None else {}
-        if ms is None or ms != cs:
+        cs_cmp, ca_cmp = cs, ca
+        if ms is None or ms != cs_cmp:
             corr.disagreements.append(dict({'kind': 'static image', 'input': inp, 'impl': show_cells(cs), 'model': m.get('static')}, **odiff))
-        if ca is not None and (ma is None or ma != ca):
+        if ca is not None and (ma is None or ma != ca_cmp):
             corr.disagreements.append(dict({'kind': 'automatic object', 'input': inp, 'impl': show_cells(ca), 'model': m.get('auto')}, **odiff))
         # ---- emit_data
         obj = asm_objs.get(f's{k}')
@@ -1326,6 +1527,8 @@ class Runner:
             if reinit and not over:
                 v['what'] = 'a second initializer for the flexible array member: chibicc keeps the length of the first, gcc lets the array grow'
                 self.flex_divergence(v, c)
+            elif bstr and not known:
+                self.braced_divergence(v, c)
             else:
                 self.violation(v, c, known)
         elif ca is not None and over:
@@ -1350,6 +1553,13 @@ class Runner:
         self.corr.sample({'flex_reinit': c['ctext'], 'types': c['cdefs'], 'what': v.get('what'), 'got': str(v.get('got'))[:120]}, limit=6)
         if known_listed(KNOWN_FLEX):
             self.violation(v, c, KNOWN_FLEX)
+
+    def braced_divergence(self, v, c):
+        """a case tagged braced_str fails the property (outside the region BraceOverride, which keeps its own attribution): the
+        known finding C05-braced-string-literal when known_findings.json lists it, a plain violation otherwise"""
+        self.corr.count('braced_str_diverges')
+        v['family'] = 'braced_str'
+        self.violation(v, c, KNOWN_BRACED if known_listed(KNOWN_BRACED) else None)
 
     def violation(self, v, c, known):
         corr = self.corr
@@ -1381,7 +1591,7 @@ def T(spec):
     return Agg(spec[0] == 'un', [Mem(m[0], T(m[1]), m[2] if len(m) > 2 else None) for m in spec[1]], flex=spec[0] == 'stflex')
 
 def K(items):
-    """compact token literal -> tokens: '{' '}' ',' '=' '.name' ['[',a] ['[..',a,b] int float ['str', text] ['addr', ctext, label, addend]"""
+    """compact token literal -> tokens: '{' '}' ',' '=' '.name' ['[',a] ['[..',a,b] int float ['str', text] ['str', text, prefix, esz] ['straddr', text] ['addr', ctext, label, addend]"""
     out = []
     sid = 900
     for x in items:
@@ -1392,8 +1602,14 @@ def K(items):
         elif isinstance(x, float):
             out.append(Ex(repr(x), int(x), x))
         elif x[0] == 'str':
+            # ['str', text] or ['str', text, prefix, element size] (u"..." 2, U"..."/L"..." 4; ASCII text)
             sid += 1
-            out.append(Ex('"%s"' % x[1], 0, strbytes=x[1].encode() + b'\0', strid=sid, esz=1, as_string=True))
+            prefix, esz = (x[2], x[3]) if len(x) > 2 else ('', 1)
+            raw = b''.join(ord(ch).to_bytes(esz, 'little') for ch in x[1] + '\0')
+            out.append(Ex('%s"%s"' % (prefix, x[1]), 0, strbytes=raw, strid=sid, esz=esz, as_string=True))
+        elif x[0] == 'straddr':           # the address of a string literal (a pointer leaf)
+            sid += 1
+            out.append(Ex('"%s"' % x[1], 0, label='.str%d' % sid, strbytes=x[1].encode() + b'\0', strid=sid))
         elif x[0] == 'addr':
             out.append(Ex(x[1], x[3], label=x[2]))
         else:
@@ -1418,12 +1634,15 @@ def correspond(ctx, corr):
                  'bit-fields incl. unnamed and zero-width; anonymous members; flexible array members; arrays of unknown bound; depth <= 4) and an '
                  'initializer spelling derived from it by walking the 6.7.9 cursor (random braces/elision, designator paths incl. nested, '
                  'out-of-order and ranges, short/excess lists, trailing commas, string literals of every prefix incl. exact fit without '
-                 'terminator, address constants with offsets, string addresses).  The same initializer initialises a static and an automatic '
+                 'terminator, the same string literals ENCLOSED IN BRACES (6.7.9p14/p15; tag braced_str: whole object, unknown bound, member, '
+                 'row of an array of arrays, after designators, overriding, with trailing comma), address constants with offsets, string addresses).  The same initializer initialises a static and an automatic '
                  'object in one program compiled by chibicc and by gcc; all bytes are dumped.  non-trivial = the spelling contains a designator, '
                  'brace elision or an unterminated exact-fit string; distinct = by type+token text.')
     gen = Gen(ctx.rng, ctx.thorough)
     runner = Runner(ctx, corr)
     cases = load_corpus()
+    if BRACED_STR_SHARE == 0:             # debugging aid (C05_NO_BRACED_STR): the whole family off, corpus entries and witness included
+        cases = [c for c in cases if 'braced_str' not in c['notes']]
     corr.count('corpus', len(cases))
     total = 20000 if ctx.thorough else 1200
     batch = 40
@@ -1432,14 +1651,21 @@ def correspond(ctx, corr):
         todo.append(gen.case())
     for i in range(0, len(todo), batch):
         runner.run_batch(todo[i:i + batch])
-        if len(corr.disagreements) > 20 or len([v for v in corr.violations if not v.get('known_id')]) > 10:
+        if (len(corr.disagreements) > 20 or len([v for v in corr.violations if not v.get('known_id')]) > 10) and not os.environ.get('C05_KEEP_GOING'):
             break
+    if os.environ.get('C05_DEBUG_DUMP'):          # debugging aid: every disagreement/violation of the run with the tags of its case
+        tags = {c.get('ctext'): c['notes'] for c in todo if 'ctext' in c}
+        json.dump({'disagreements': [dict(d, notes=tags.get((d.get('input') or {}).get('decl'))) for d in corr.disagreements],
+                   'violations': [dict(v, notes=tags.get((v.get('input') or {}).get('decl')) if isinstance(v.get('input'), dict) else None) for v in corr.violations]},
+                  open(os.environ['C05_DEBUG_DUMP'], 'w'), indent=1, default=str)
     for c in todo[:3]:
         if 'ctext' in c:
             corr.sample({'decl': c['ctext'], 'types': c['cdefs'], 'model': c['model'].get('static')})
     corr.extra['compilers'] = 'chibicc snapshot; gcc -std=gnu11 -w -O0 as the 6.7.9 oracle'
     agg_expr_witness(ctx, corr)
     flex_reinit_witness(ctx, corr)
+    if BRACED_STR_SHARE > 0:
+        braced_str_witness(ctx, corr)
 
 
 KNOWN_AGGEXPR = 'C05-agg-expr-then-member'
@@ -1500,6 +1726,46 @@ def flex_reinit_witness(ctx, corr):
                 corr.known_hits.append(KNOWN_FLEX)
             corr.violations.append({'known_id': KNOWN_FLEX, 'what': 'a second initializer for the flexible array member: the object keeps the length of the first',
                                     'input': FLEX_WITNESS, 'expected': f"gcc: {sizes.get('gcc')} bytes", 'got': f"chibicc: {sizes.get('chibicc')} bytes"})
+
+BRACED_WITNESS = r'''int printf(const char *, ...);
+char s[6] = {"abc"};
+char t[] = {"abcd"};
+int w[4] = {L"ab",};
+int main(void) {
+  char a[6] = {"abc"};
+  printf("%d %d %d %d %d %d | %d | %d %d %d %d | %d %d %d %d\n", s[0], s[1], s[2], s[3], s[4], s[5], (int)sizeof(t), w[0], w[1], w[2], w[3], a[0], a[1], a[2], a[3]);
+  return 0;
+}
+'''
+BRACED_WITNESS_CASE = {'line': 'a 6 s 1 i | { str 901 1 61626300 }', 'ctext': 'char x[6] = { "abc" };', 'cdefs': ''}
+
+def braced_str_witness(ctx, corr):
+    """fixed witness of 6.7.9p14 (`char s[6] = {"abc"};` and friends) replayed on the implementation with gcc as the oracle: the known
+    finding C05-braced-string-literal when known_findings.json lists it, a plain violation otherwise"""
+    d = os.path.join(ctx.scratch, 'bracedw')
+    os.makedirs(d, exist_ok=True)
+    src = os.path.join(d, 'w.c')
+    open(src, 'w').write(BRACED_WITNESS)
+    outs = {}
+    for name, cmd in (('chibicc', [ctx.cc, '-o', os.path.join(d, 'wc'), src]), ('gcc', ['gcc', '-std=gnu11', '-w', '-O0', '-o', os.path.join(d, 'wg'), src])):
+        rc, o, e = sh(cmd, cwd=d, timeout=120)
+        if rc != 0:
+            outs[name] = f'compile rc={rc} {e.strip()[-200:]}'
+            continue
+        rc, o, e = sh([os.path.join(d, 'wc' if name == 'chibicc' else 'wg')], cwd=d, timeout=60)
+        outs[name] = f'rc={rc} {o.strip()}'
+    corr.evaluations += 1
+    corr.count('braced_str')
+    corr.extra['braced_str_witness'] = outs
+    if outs.get('chibicc') != outs.get('gcc'):
+        corr.count('braced_str_witness_diverges')
+        v = {'what': 'a string literal enclosed in braces does not initialise the character array (C11 6.7.9p14/p15)', 'family': 'braced_str',
+             'input': BRACED_WITNESS, 'expected': outs.get('gcc'), 'got': outs.get('chibicc'), 'replay_case': dict(BRACED_WITNESS_CASE)}
+        if known_listed(KNOWN_BRACED):
+            v['known_id'] = KNOWN_BRACED
+            if KNOWN_BRACED not in corr.known_hits:
+                corr.known_hits.append(KNOWN_BRACED)
+        corr.violations.append(v)
 
 def search(ctx, broken, corr):
     """the proof or the tie broke without a direct violation: (a) a disagreeing input on which the code also differs from gcc,
